@@ -81,6 +81,45 @@ BUDGET_S = {"quick": 600, "thorough": 2300}
 TOL = 1e-9
 
 
+def POST_INSTALL():
+    """np.unique for the facade (numpy refuses axis= on object arrays): all-concrete object arrays are normalised to float64
+    and handed to numpy; rows holding proxies are ordered lexicographically by forking comparisons."""
+    import functools
+
+    def unique(self, ar, return_index=False, return_inverse=False, return_counts=False, axis=None, **kw):
+        a = shim.normalise(hx.unwrap(ar))
+        if not (isinstance(a, np.ndarray) and a.dtype == object):
+            return np.unique(a, return_index=return_index, return_inverse=return_inverse, return_counts=return_counts, axis=axis, **kw)
+        if axis not in (None, 0) or return_counts or (axis is None and a.ndim != 1):
+            raise V.Unsupported("np.unique on proxies: only 1-D or axis=0")
+        rows = [tuple(np.atleast_1d(a[i]).tolist()) for i in range(a.shape[0])]
+
+        def cmp(i, j):
+            for x, y in zip(rows[i], rows[j]):
+                if bool(x < y):
+                    return -1
+                if bool(y < x):
+                    return 1
+            return i - j
+
+        order = sorted(range(len(rows)), key=functools.cmp_to_key(cmp))
+        firsts, inverse = [], [0] * len(rows)
+        for i in order:
+            if firsts and all(not bool(x < y) and not bool(y < x) for x, y in zip(rows[firsts[-1]], rows[i])):
+                inverse[i] = len(firsts) - 1
+                continue
+            firsts.append(i)
+            inverse[i] = len(firsts) - 1
+        out = [a[firsts]]
+        if return_index:
+            out.append(np.array(firsts, dtype=int))
+        if return_inverse:
+            out.append(np.array(inverse, dtype=int))
+        return out[0] if len(out) == 1 else tuple(out)
+
+    setattr(shim.NPFacade, "unique", unique)
+
+
 # ---------------------------------------------------------------------------- three-valued logic helpers (proxies or python bools)
 
 def _py(x):
@@ -368,10 +407,20 @@ ORIGIN = (0.25, -0.5)
 _PYTH = [(3, 4), (10, 0), (5, 12), (0, 5), (8, 6), (1.5, 2), (12, 5), (0, 10), (4, 3), (2.5, 6), (6, 8), (5, 0)]
 
 
-def exact_border(K, variant):
+def exact_border(K, variant, dup=0):
     """K source-plane border points with exactly representable radii about the centroid CENTRE (pairs +-p of axis /
-    Pythagorean points, plus one zero-sum triple for odd K); mixed radii, so generally non-convex"""
-    if K == 1:
+    Pythagorean points, plus one zero-sum triple for odd K); mixed radii, so generally non-convex.
+    dup=2 / 3: two / three of the border pixels trace to exactly the same source-plane coordinate (zero-sum blocks
+    (0,5),(0,5),(0,-10) / (0,5)x3,(0,-15), so centroid and radii stay exact)"""
+    if dup and K == 2:
+        offs = [(0.0, 0.0), (0.0, 0.0)]
+    elif dup and K >= dup + 1:
+        block = [(0, 5), (0, 5), (0, -10)] if dup == 2 else [(0, 5), (0, 5), (0, 5), (0, -15)]
+        rest = K - len(block)
+        scale = 0.125 if variant % 2 else 1.0
+        head = (exact_border(rest, variant) - np.array(CENTRE, dtype=float)) / scale if rest else np.zeros((0, 2))
+        offs = [tuple(r) for r in head] + block
+    elif K == 1:
         offs = [(0.0, 0.0)]
     else:
         offs = [(3, 4), (-3, 4), (0, -8)] if K % 2 else []
@@ -384,7 +433,7 @@ def exact_border(K, variant):
     return np.array(offs, dtype=float) * scale + np.array(CENTRE, dtype=float)
 
 
-def body_class(inp, H, W, s, kind, which, named=None):
+def body_class(inp, H, W, s, kind, which, named=None, dup=0):
     import autoarray as aa
     mask = _named(named) if named else np.array(inp["mask"], dtype=bool).reshape(H, W)
     H, W = mask.shape
@@ -414,7 +463,7 @@ def body_class(inp, H, W, s, kind, which, named=None):
             img[t, 1] = ORIGIN[1] + (float(X - F(W - 1, 2))) * PIXEL_SCALES[1]
     # 'ray-traced' data grid: the sub-border sub-pixels land on a border with exact radii, the others keep their place
     src = img.copy()
-    B = exact_border(len(sbs), kind)
+    B = exact_border(len(sbs), kind, dup)
     for j, t in enumerate(sbs):
         src[int(t)] = B[j]
     data = shim.as_obj(src) if sym else src.copy()
@@ -515,11 +564,11 @@ def _history(A, E, aa, m, br, sbs, img, free, q, v, kind, which, sym):
     return A, E
 
 
-def case_class(ctx, H, W, s, kind, which, named=None):
+def case_class(ctx, H, W, s, kind, which, named=None, dup=0):
     mask = _named(named) if named else _fork_mask(ctx, H, W)
     ctx.set_case(mask=mask.tolist())
     inputs = {"mask": mask, "q": V.real_array("q", (2,)), "v": V.real_array("v", (2,))}
-    hx.run_body(ctx, body_class, inputs, {"H": H, "W": W, "s": s, "kind": kind, "which": which, "named": named}, validate_every=10)
+    hx.run_body(ctx, body_class, inputs, {"H": H, "W": W, "s": s, "kind": kind, "which": which, "named": named, "dup": dup}, validate_every=10)
 
 
 BODIES = {"case_kernel": body_kernel, "case_subborder": body_subborder, "case_class": body_class}
@@ -579,6 +628,13 @@ def cases(tier):
     for name in (("ring5", "lshape34") if quick else ("ring5", "lshape34", "blob45")):
         for which in ("grid", "mesh"):
             out.append(("case_class", {"H": 0, "W": 0, "s": 2, "kind": 1 if which == "grid" else 0, "which": which, "named": name}))
+    # coincident border coordinates: two / three border pixels trace to the same source-plane point
+    for (H, W) in (_shapes(3) + [(2, 2)] if quick else _shapes(4) + [(2, 3)]):
+        for which in ("grid", "mesh"):
+            out.append(("case_class", {"H": H, "W": W, "s": 2, "kind": (H + W + 1) % 2, "which": which, "named": None, "dup": 2}))
+    for which in ("grid", "mesh"):
+        out.append(("case_class", {"H": 2, "W": 2, "s": 2, "kind": 0, "which": which, "named": None, "dup": 3}))
+        out.append(("case_class", {"H": 0, "W": 0, "s": 2, "kind": 1, "which": which, "named": "lshape34", "dup": 3 if which == "grid" else 2}))
     # two-step histories on one relocator (stale state between calls)
     for (H, W) in (_shapes(3) + [(2, 2)] if quick else _shapes(4) + [(2, 3), (3, 2)]):
         for which in ("hist_mesh", "hist_grid"):
@@ -589,7 +645,7 @@ def cases(tier):
 
 
 BODY_KWARGS = {"case_kernel": ("border", "scale", "N"), "case_subborder": ("H", "W", "api"),
-               "case_class": ("H", "W", "s", "kind", "which", "named")}
+               "case_class": ("H", "W", "s", "kind", "which", "named", "dup")}
 
 
 def replay(cand):
